@@ -369,6 +369,15 @@ def _cache_coherent_at(prog, R, fn, attr: str, at) -> Optional[bool]:
         def eval_unpack(self, value, i, n, state, flow):
             return EMPTY_
 
+        def refine(self, test, polarity, state, flow):
+            # lazily filled cache: on the edge where the attribute is not None, "None or coherent" means coherent
+            c_ = canon(test)
+            not_none = (c_ == f"(self.{attr} is None)" and not polarity) or (c_ == f"(self.{attr} is not None)" and polarity)
+            cur = state.get("@cache", EMPTY_)
+            if not_none and "NOC" in cur:
+                state["@cache"] = cur | COH
+            return state
+
         def after_stmt(self, node, state, flow):
             s_ = node.stmt
             if node.kind != "stmt" or s_ is None:
@@ -387,13 +396,18 @@ def _cache_coherent_at(prog, R, fn, attr: str, at) -> Optional[bool]:
                 if a == "u":
                     if whole and strip_copy_(v) == "self.u_best" and "BEQ" in cur:
                         continue  # re-synchronised from the mirror slot, which equals self.u: the value does not change
-                    cur = EMPTY_
+                    cur = EMPTY_  # (a stale cache is neither coherent nor None)
                     usrc = frozenset({strip_copy_(v)}) if whole and v is not None else EMPTY_
                 elif a == "u_best":
                     src_ = strip_copy_(v) if whole and v is not None else None
                     cur = (cur | {"BEQ"}) if src_ is not None and (src_ == "self.u" or src_ in usrc) else (cur - {"BEQ"})
                 elif a == attr:
-                    cur = (cur | COH) if (whole and is_gen(v)) else (cur - COH)
+                    if whole and is_gen(v):
+                        cur = cur | COH | {"NOC"}
+                    elif whole and isinstance(v, ast.Constant) and v.value is None:
+                        cur = (cur - COH) | {"NOC"}  # invalidated: None or coherent
+                    else:
+                        cur = cur - COH - {"NOC"}
             state["@cache"] = cur
             state["@usrc"] = usrc
             return state
@@ -408,7 +422,7 @@ def _cache_coherent_at(prog, R, fn, attr: str, at) -> Optional[bool]:
             return (EMPTY_, EMPTY_)
         memo[f] = (EMPTY_, EMPTY_)  # recursion: assume nothing
         res = []
-        for init in (EMPTY_, frozenset({"COH", "BEQ"})):
+        for init in (EMPTY_, frozenset({"COH", "BEQ", "NOC"})):
             fl = TagFlow(prog, f, P(depth, init))
             acc = None
             for r_ in [n for n in ast.walk(f.node) if isinstance(n, ast.Return) and prog.function_of(n) is f]:
@@ -515,6 +529,13 @@ def check(ctx):
                 xb = xv
                 while isinstance(xb, ast.Call) and isinstance(xb.func, ast.Attribute) and xb.func.attr in ("copy", "flatten") and not xb.args:
                     xb = xb.func.value
+                if isinstance(xb, ast.Name):
+                    # the cache read into a local right before the record (an inlined getter's return value)
+                    from .common import reaching_assignments as _ra19
+
+                    dd_ = _ra19(prog, opt, xb.id, keys["x"][0])
+                    if len(dd_) == 1 and isinstance(dd_[0], ast.Attribute):
+                        xb = dd_[0]
                 ca = self_attr_of(xb) if isinstance(xb, ast.Attribute) else None
                 if ca and ca != "u":
                     coh = _cache_coherent_at(prog, R, opt, ca, keys["x"][0])
